@@ -320,6 +320,16 @@ def run(chk, repo):
               and unparse(s.value.func) in ("self.go.set", "self.go.clear")]
     go_after = go_ops[-1] if go_ops else None        # None: unchanged
     chk.decide(sets_halting, "C17.stop", W("AudioThread.stop"), "raises the halting flag", why="the stop message is never sent", node=stop)
+    # ... on every path, whatever the flags are when stop() is called (a second stop() after a pause() has to wake the
+    # thread again: the halting flag and the go event are independent)
+    early = [n for n in ast.walk(stop) if isinstance(n, (ast.Return, ast.Raise))]
+    guarded_ops = [n for n in ast.walk(stop) if isinstance(n, ast.If) and any(
+        unparse(x) in ("self.halting = True", "self.go.set()") for b_ in (n.body + n.orelse) for x in ast.walk(b_)
+        if isinstance(x, (ast.Assign, ast.Expr)))]
+    chk.decide(not early and not guarded_ops and "set" in go_ops, "C17.stop", W("AudioThread.stop"),
+               "the flag is raised and the event set unconditionally (%d early exits, %d guards)" % (len(early), len(guarded_ops)),
+               why="a stop() that returns early / is guarded (e.g. 'if self.halting: return') no longer sets the go event: "
+                   "after stop - pause the player sleeps in go.wait() for ever and close() never returns", node=stop)
     loop = [s for s in rb if isinstance(s, ast.For)]
     chk.require(len(loop) == 1, "AudioThread.run: chunk loop not found")
     lp = loop[0]
